@@ -55,7 +55,21 @@ ASSUMPTIONS = [
 
 CLASSES = {"str": str, "int": int, "float": float, "bool": bool, "list": list, "dict": dict, "none": None}
 SAMPLE = {"str": "s", "int": 1, "float": 1.0, "bool": True, "list": [1], "dict": {"k": 1}, "none": None}
-KEYS = ["a", "b", "c", "size", "path", "user"]
+KEYS = ["a", "b", "c", "size", "path", "user", "exception", "reason"]
+
+
+class _Str(str):
+    pass
+
+
+class _List(list):
+    pass
+
+
+import collections as _collections  # noqa: E402
+
+# instances of subclasses of the declared classes: what isinstance() - the documented rule - accepts
+SUBCLASS_SAMPLE = {"int": True, "str": _Str("s"), "list": _List([1]), "dict": _collections.OrderedDict([("k", 1)])}
 
 
 class Unencodable(object):
@@ -82,10 +96,13 @@ def make_field(spec):
     raise ValueError(kind)
 
 
-def good_value(spec, pick=0):
+def good_value(spec, pick=0, variant=0):
     key, kind, param = spec
     if kind in ("types", "shorthand"):
-        return SAMPLE[param[pick % len(param)]]
+        c = param[pick % len(param)]
+        if variant and c in SUBCLASS_SAMPLE:
+            return SUBCLASS_SAMPLE[c]
+        return SAMPLE[c]
     if kind == "value":
         return param
     if kind == "ser":
@@ -159,6 +176,7 @@ def unencodable_scalar(spec):
 class World(object):
     def __init__(self, case):
         self.types = []
+        self.variant = case.get("variant", 0)
         for t in case["types"]:
             if t["kind"] == "message":
                 obj = MessageType("c14:m%d" % len(self.types), [make_field(f) for f in t["fields"]], "")
@@ -188,7 +206,7 @@ def emit(world, index, deviation=None, fail=False, tb=False):
 
     def kwargs_for(phase):
         specs = t[phase]
-        kw = dict((f[0], good_value(f, i)) for i, f in enumerate(specs))
+        kw = dict((f[0], good_value(f, i, world.variant)) for i, f in enumerate(specs))
         if deviation is not None and deviation[0] == phase:
             kind, arg = deviation[1], deviation[2]
             if kind == "drop":
@@ -315,6 +333,11 @@ def classify_conforming(case, info):
         labels.append("traceback")
     kinds = sorted(set(f[1] for t in case["types"] for ph in ("fields", "start", "success") for f in t.get(ph, [])))
     labels.extend("field:" + k for k in kinds)
+    if case.get("variant"):
+        labels.append("values-are-instances-of-subclasses")
+    names = set(f[0] for t in case["types"] for ph in ("fields", "start", "success") for f in t.get(ph, []))
+    if {"exception", "reason"} & names:
+        labels.append("declared-field-named-exception-or-reason")
     return info["messages"] >= 3 and bool(info["failed"] or info["tracebacks"] or len(kinds) >= 2), labels
 
 
@@ -568,7 +591,7 @@ def type_specs():
 
 def conforming_strategy():
     step = st.tuples(st.integers(0, 2), st.booleans(), st.sampled_from([0, 0, 1]), st.sampled_from([0, 0, 0, 1])).map(list)
-    return st.builds(lambda types, steps: {"types": types, "steps": steps}, type_specs(), st.lists(step, min_size=1, max_size=5))
+    return st.builds(lambda variant, types, steps: {"variant": variant, "types": types, "steps": steps}, st.sampled_from([0, 0, 1]), type_specs(), st.lists(step, min_size=1, max_size=5))
 
 
 def deviation_strategy():
@@ -587,7 +610,8 @@ def deviation_strategy():
         st.tuples(st.integers(0, 2), st.sampled_from(["fields", "start", "success"]), st.just("bad-equal"), st.integers(0, 5)),
     ).map(list)
     return st.builds(
-        lambda warmup, before, after, dev, types: {"warmup": warmup, "before": before, "after": after, "deviation": dev, "types": types},
+        lambda variant, warmup, before, after, dev, types: {"variant": variant, "warmup": warmup, "before": before, "after": after, "deviation": dev, "types": types},
+        st.sampled_from([0, 0, 1]),
         st.sampled_from([0, 0, 1, 3]),
         st.integers(0, 2),
         st.integers(0, 2),
